@@ -516,7 +516,7 @@ func init() {
 	})
 
 	register(&Rule{
-		ID: "reload.reused-at-most-once", Props: []string{"C02", "C14", "C06"}, Floor: 6,
+		ID: "reload.reused-at-most-once", Props: []string{"C02", "C14", "C06", "C03"}, Floor: 6,
 		Doc: "in the three builders an old object that was matched (equal rule: reused as a whole; statistic-reusable rule: its statistic handed to the generator) is removed from the candidate list (append(old[:i], old[i+1:]...) with i the matched index) before the next rule is processed: no two new controllers share one old controller or one statistic (a shared standalone window would be incremented once per sharing controller for every admitted request)",
 		Run: func(c *Ctx) {
 			for _, bn := range builderFuncs {
